@@ -299,7 +299,7 @@ def gen_case(seed, cfg):
     from machines.hist import FAULTS_BY_ENGINE
     reps = []
     for _ in range(rng.randint(3, 8)):
-        k = rng.choice(['primal', 'dual', 'solve', 'solve', 'soc_solve', 'fault', 'clock', 'export'])
+        k = rng.choice(['primal', 'dual', 'solve', 'solve', 'soc_solve', 'fault', 'clock', 'export', 'dualq'])
         if k == 'primal':
             reps.append({'op': 'formulate', 'm': 'm', 'primal': True})
         elif k == 'dual':
@@ -315,8 +315,11 @@ def gen_case(seed, cfg):
         elif k == 'clock':
             reps.append({'op': 'solve', 'm': 'm', 'solver': rng.choice(pool),
                          'fault': {'kind': 'clock_step', 'steps': [rng.choice([-7200.0, 1e8])]}})
+        elif k == 'dualq':
+            reps.append({'op': 'dualq', 'ids': [o['id'] for o in ops if o['op'] == 'cons']})
         else:
-            reps.append({'op': 'export', 'm': 'm', 'how': rng.choice(['show', 'lp_export', 'repr'])})
+            reps.append({'op': 'export', 'm': 'm', 'how': rng.choice(['show', 'lp_export', 'repr', 'to_lp']),
+                         'primal': rng.random() < 0.7})
     return {'src': src, 'ops': ops, 'worlds': worlds, 'reps': reps, 'cone': cone, 'seed': seed}
 
 
